@@ -16,6 +16,16 @@ pub const MERGE_GAP: f64 = 1e-9;
 /// similarity floor of the -ln transform (property statement)
 pub const SIM_FLOOR: f64 = 1e-6;
 
+/// machine epsilon of the element type the kernel is built with, and the absolute floor of its tolerances
+#[derive(Debug, Clone, Copy)]
+pub struct Prec {
+    pub eps: f64,
+    pub tiny: f64,
+}
+pub const F64: Prec = Prec { eps: f64::EPSILON, tiny: TINY };
+/// f32: results below the smallest normal number are rounded to multiples of 1.4e-45
+pub const F32: Prec = Prec { eps: f32::EPSILON as f64, tiny: 1e-44 };
+
 #[derive(Debug, Clone, Serialize, Deserialize, PartialEq)]
 pub enum KM {
     Linear,
@@ -26,7 +36,10 @@ pub enum KM {
 }
 
 /// kernel value and the absolute tolerance that goes with it
-pub fn kernel_ref(m: &KM, a: &[f64], b: &[f64]) -> (f64, f64) {
+/// (the reference itself runs in f64 on the exact element values; differences of the records are formed
+/// first, so a common offset of the records does not enter the tolerance of the Gaussian kernel)
+pub fn kernel_ref(m: &KM, a: &[f64], b: &[f64], prec: Prec) -> (f64, f64) {
+    let (ep, tiny) = (prec.eps, prec.tiny);
     match m {
         KM::Linear => {
             let mut s = 0.0;
@@ -35,7 +48,7 @@ pub fn kernel_ref(m: &KM, a: &[f64], b: &[f64]) -> (f64, f64) {
                 s += x * y;
                 scale += (x * y).abs();
             }
-            (s, TOL_ULPS * EPS * scale + TINY)
+            (s, TOL_ULPS * ep * scale + tiny)
         }
         KM::Gaussian(eps) => {
             let mut d2 = 0.0;
@@ -45,7 +58,7 @@ pub fn kernel_ref(m: &KM, a: &[f64], b: &[f64]) -> (f64, f64) {
             let t = d2 / eps;
             let v = (-t).exp();
             // relative error of exp(-t) under a relative error delta of t is about t*delta
-            (v, TOL_ULPS * EPS * (1.0 + t) * v + TINY)
+            (v, TOL_ULPS * ep * (1.0 + t) * v + tiny)
         }
         KM::Polynomial(c, d) => {
             let mut s = 0.0;
@@ -55,7 +68,7 @@ pub fn kernel_ref(m: &KM, a: &[f64], b: &[f64]) -> (f64, f64) {
                 scale += (x * y).abs();
             }
             let base = s + c;
-            let e_base = TOL_ULPS * EPS * (scale + c.abs()) + TINY;
+            let e_base = TOL_ULPS * ep * (scale + c.abs()) + tiny;
             let v = pow_ref(base, *d);
             if is_small_integer(*d) {
                 // |d base^(d-1)| e_base, with the base taken at the far end of its error interval
@@ -65,7 +78,7 @@ pub fn kernel_ref(m: &KM, a: &[f64], b: &[f64]) -> (f64, f64) {
                     slope *= base.abs() + e_base;
                     i += 1.0;
                 }
-                (v, TOL_ULPS * EPS * v.abs() + slope * e_base + TINY)
+                (v, TOL_ULPS * ep * v.abs() + slope * e_base + tiny)
             } else {
                 // base >= 0 by construction: x^d is monotone there, so the images of the end points of the
                 // error interval of the base bound the propagated error; plus the error of the reference itself
@@ -73,7 +86,7 @@ pub fn kernel_ref(m: &KM, a: &[f64], b: &[f64]) -> (f64, f64) {
                 let hi = pow_ref(base + e_base, *d);
                 let prop = (hi - v).abs().max((v - lo).abs());
                 let cond = if base > 0.0 { 1.0 + (d * base.ln()).abs() } else { 1.0 };
-                (v, prop + TOL_ULPS * EPS * cond * v.abs() + TINY)
+                (v, prop + TOL_ULPS * ep * cond * v.abs() + tiny)
             }
         }
     }
@@ -141,29 +154,54 @@ pub fn knn_radii(x: &Mat, k: usize) -> (Mat, Vec<f64>) {
     (d2, dk)
 }
 
-/// number of other points that are certainly closer to `i` than `j` is
-fn certainly_closer(d2: &Mat, i: usize, j: usize) -> usize {
-    (0..d2.len()).filter(|&l| l != i && l != j && d2[i][l] < d2[i][j] * (1.0 - KNN_BAND)).count()
+/// Squared distances (from exact differences of the records) with the band inside which two distances
+/// count as tied: relative `rel` on the squared distance plus an absolute `slack` on the distance
+/// (rounding of a neighbour index that works in the element type: proportional to the data diameter,
+/// never to the norm of the records).
+pub struct Knn {
+    pub d2: Mat,
+    pub k: usize,
+    pub rel: f64,
+    pub slack: f64,
 }
-/// number of other points that are possibly closer to `i` than `j` is, or tied with it
-fn possibly_closer_or_tied(d2: &Mat, i: usize, j: usize) -> usize {
-    (0..d2.len()).filter(|&l| l != i && l != j && d2[i][l] <= d2[i][j] * (1.0 + KNN_BAND)).count()
-}
-/// `j` is among the k nearest neighbours of `i` however distance ties are broken
-pub fn surely_neighbour(d2: &Mat, k: usize, i: usize, j: usize) -> bool {
-    i != j && possibly_closer_or_tied(d2, i, j) < k
-}
-/// `j` is among the k nearest neighbours of `i` for at least one way of breaking distance ties
-pub fn possibly_neighbour(d2: &Mat, k: usize, i: usize, j: usize) -> bool {
-    i != j && certainly_closer(d2, i, j) < k
-}
-/// pair (i,j) must be stored: one of the two is unambiguously among the other's k nearest
-pub fn must_pair(d2: &Mat, k: usize, i: usize, j: usize) -> bool {
-    i == j || surely_neighbour(d2, k, i, j) || surely_neighbour(d2, k, j, i)
-}
-/// pair (i,j) may be stored: one of the two is possibly (ties included) among the other's k nearest
-pub fn may_pair(d2: &Mat, k: usize, i: usize, j: usize) -> bool {
-    i == j || possibly_neighbour(d2, k, i, j) || possibly_neighbour(d2, k, j, i)
+impl Knn {
+    pub fn new(x: &Mat, k: usize, prec: Prec) -> Knn {
+        let (d2, _) = knn_radii(x, k);
+        let diam = d2.iter().flat_map(|r| r.iter()).copied().fold(0.0, f64::max).sqrt();
+        Knn { d2, k, rel: KNN_BAND.max(TOL_ULPS * prec.eps), slack: TOL_ULPS * prec.eps * diam }
+    }
+    fn lo(&self, v: f64) -> f64 {
+        v * (1.0 - self.rel) - 2.0 * v.sqrt() * self.slack
+    }
+    fn hi(&self, v: f64) -> f64 {
+        v * (1.0 + self.rel) + 2.0 * v.sqrt() * self.slack
+    }
+    /// number of other points that are certainly closer to `i` than `j` is
+    fn certainly_closer(&self, i: usize, j: usize) -> usize {
+        let d2 = &self.d2;
+        (0..d2.len()).filter(|&l| l != i && l != j && self.hi(d2[i][l]) < self.lo(d2[i][j])).count()
+    }
+    /// number of other points that are possibly closer to `i` than `j` is, or tied with it
+    fn possibly_closer_or_tied(&self, i: usize, j: usize) -> usize {
+        let d2 = &self.d2;
+        (0..d2.len()).filter(|&l| l != i && l != j && self.lo(d2[i][l]) <= self.hi(d2[i][j])).count()
+    }
+    /// `j` is among the k nearest neighbours of `i` however distance ties are broken
+    pub fn surely_neighbour(&self, i: usize, j: usize) -> bool {
+        i != j && self.possibly_closer_or_tied(i, j) < self.k
+    }
+    /// `j` is among the k nearest neighbours of `i` for at least one way of breaking distance ties
+    pub fn possibly_neighbour(&self, i: usize, j: usize) -> bool {
+        i != j && self.certainly_closer(i, j) < self.k
+    }
+    /// pair (i,j) must be stored: one of the two is unambiguously among the other's k nearest
+    pub fn must_pair(&self, i: usize, j: usize) -> bool {
+        i == j || self.surely_neighbour(i, j) || self.surely_neighbour(j, i)
+    }
+    /// pair (i,j) may be stored: one of the two is possibly (ties included) among the other's k nearest
+    pub fn may_pair(&self, i: usize, j: usize) -> bool {
+        i == j || self.possibly_neighbour(i, j) || self.possibly_neighbour(j, i)
+    }
 }
 
 pub struct Dsu(Vec<usize>);
